@@ -164,7 +164,7 @@ theorem us_appendChild (p c : Nat) (hc : c ≠ 0) : Keeps US (appendChild p c) :
   · exact hn.kids h
   · simp only [List.mem_singleton] at h; exact hc h.symm
 
-theorem mem_insertBeforeIn {b v x : Nat} : ∀ {l : List Nat}, x ∈ insertBeforeIn b v l → x = v ∨ x ∈ l
+theorem qs_mem_insertBeforeIn {b v x : Nat} : ∀ {l : List Nat}, x ∈ insertBeforeIn b v l → x = v ∨ x ∈ l
   | [], h => by simp [insertBeforeIn] at h; exact .inl h
   | a :: rest, h => by
     unfold insertBeforeIn at h
@@ -174,7 +174,7 @@ theorem mem_insertBeforeIn {b v x : Nat} : ∀ {l : List Nat}, x ∈ insertBefor
       · exact .inr h
     · rcases List.mem_cons.mp h with h | h
       · exact .inr (by rw [h]; exact List.mem_cons_self ..)
-      · rcases mem_insertBeforeIn h with h | h
+      · rcases qs_mem_insertBeforeIn h with h | h
         · exact .inl h
         · exact .inr (List.mem_cons_of_mem _ h)
 
@@ -186,7 +186,7 @@ theorem us_insertBefore (p : Nat) (v1 : Option Nat) (ins : Nat) (hi : ins ≠ 0)
     refine Keeps.bind (us_ensureIsolated ins) (fun _ => ?_)
     refine Keeps.bind (us_modNode p _ (fun n hn => ⟨hn.kind, fun h => ?_⟩) (fun _ _ => rfl))
       (fun _ => us_modNode ins _ (fun n hn => ⟨hn.kind, hn.kids⟩) (fun _ _ => rfl))
-    rcases mem_insertBeforeIn h with h | h
+    rcases qs_mem_insertBeforeIn h with h | h
     · exact hi h.symm
     · exact hn.kids h
 
